@@ -44,6 +44,11 @@ F_TopologiesOn(Ts, args) ==
       Vs == TLCEval([i \in 1..Len(Ts) |-> View(Ts[i])])
       names == Vs[1].names
   IN  Fail("TopologyCount", Len(Ts) = OddFact(IF args.rooted THEN 2 * n - 3 ELSE 2 * n - 5))
+      \* with caller-supplied tip names: exactly those names, every tip named
+      \cup (IF "names" \in DOMAIN args
+            THEN Fail("TopologiesUseTheGivenNames",
+                      \A i \in 1..Len(Ts) : Vs[i].names = SeqRange(args.names) /\ \A t \in Vs[i].tips : Vs[i].nm[t] # "")
+            ELSE Fail("TopologiesNameEveryTip", \A i \in 1..Len(Ts) : \A t \in Vs[i].tips : Vs[i].nm[t] # ""))
       \cup Fail("TopologiesAreBinaryOnTheTips",
                 \A i \in 1..Len(Ts) : /\ IF args.rooted
                                          \* a rooted topology is returned either with a bifurcating root or hanging from a
